@@ -1,6 +1,8 @@
 package mem2reg
 
 import (
+	"sort"
+
 	"github.com/gogpu/naga/ir"
 )
 
@@ -63,10 +65,22 @@ func newPhiWalker(ctx *promotionContext) *phiWalker {
 		candidates:   selectStructuredCandidates(ctx),
 	}
 	// Seed initial values from each candidate's Init or a fresh ZeroValue.
-	for v := range w.candidates {
+	for _, v := range w.sortedCandidates() {
 		w.currentValue[v] = initialValueOf(ctx, v)
 	}
 	return w
+}
+
+// sortedCandidates returns the candidate variables in ascending order.
+// Every loop that appends expressions or statements iterates in this order
+// so that the rewritten function does not depend on map iteration order.
+func (w *phiWalker) sortedCandidates() []uint32 {
+	out := make([]uint32, 0, len(w.candidates))
+	for v := range w.candidates {
+		out = append(out, v)
+	}
+	sort.Slice(out, func(i, j int) bool { return out[i] < out[j] })
+	return out
 }
 
 // selectStructuredCandidates returns variables eligible for Phase B
@@ -231,7 +245,7 @@ func (w *phiWalker) handleIf(stmtPtr *ir.Statement) []ir.Statement {
 	}
 
 	var phis []ir.Statement
-	for v := range w.candidates {
+	for _, v := range w.sortedCandidates() {
 		va, haveA := acceptValues[v]
 		vr, haveR := rejectValues[v]
 		if !haveA && !haveR {
@@ -282,7 +296,7 @@ func (w *phiWalker) handleSwitch(stmtPtr *ir.Statement) []ir.Statement {
 	stmtPtr.Kind = ir.StmtSwitch{Selector: sk.Selector, Cases: cases}
 
 	var phis []ir.Statement
-	for v := range w.candidates {
+	for _, v := range w.sortedCandidates() {
 		// Decide whether ANY case wrote to v.
 		writes := false
 		for ci := range caseValues {
